@@ -9,7 +9,9 @@
 //           adapter: cbawait | cbref | cbawt | cbwrap | mkprom | discard | conv | callfn | callawt
 //                    (cbawt: callback_await on an awaiter object obtained with retrieve_awaiter(); cbwrap: on an
 //                     awaiter_wrapper around it; callawt: call_fn_awaiter subscribed by hand: ready() / subscribe / resume)
-//           T: int | void     alloc: heap | stor | none
+//           T: int | void | intref (the adapter awaits a future<int>, but the source factory returns a future<int&>, which
+//              ReturnsFuture admits and which is constructed in place inside the adapter's future<int>)
+//           alloc: heap | stor | none
 //           conv-shape: m (member, returns To) | p (member, gets the promise) | f (free fn) | c (free fn + context)
 //           behaviour: ok | throw | leave (p only: neither resolves nor throws)
 //         g [self value <v> | self exc <c> | self drop]      thread 0: registers, then (self) invokes the promise itself
@@ -145,6 +147,12 @@ struct cstor {
 struct Env {
     std::string behav = "ok";
     bool cb_throws = false;
+    bool ref_src = false;              // the source is a reference future: what is handed out must be the referenced cell itself
+    static inline int ref_cells[64];
+    void note_ref(const int *p) {
+        if (ref_src && !(p >= ref_cells && p < ref_cells + 64)) { trk::Off o; log("badref"); }
+    }
+    void note_ref(const void *) {}
     std::string read = "get";
     int cb_calls = 0, conv_calls = 0;
     void log(const std::string &s) { S().log_line(s); }
@@ -190,20 +198,20 @@ static std::string observe_int(Fn &&fn) {
     }
 }
 template <typename T>
-static std::string observe_future(future<T> &f) {
+static std::string observe_future(future<T> &f, bool source = true) {
     if constexpr (std::is_void_v<T>) return observe_void([&] { f.value(); });
-    else return observe_int([&] { return f.value(); });
+    else return observe_int([&] { int &r = f.value(); if (source) g_env->note_ref(&r); return r; });
 }
 // what the callback sees in its await_result, read in the spelling chosen by the input (`read` line)
 template <typename T>
 static std::string observe_result(await_result<T> &r, const std::string &style = "get") {
     auto by_get = [&]() -> std::string {
         if constexpr (std::is_void_v<T>) return observe_void([&] { r.get(); });
-        else return observe_int([&] { return r.get(); });
+        else return observe_int([&] { int &x = r.get(); g_env->note_ref(&x); return x; });
     };
     auto by_star = [&]() -> std::string {
         if constexpr (std::is_void_v<T>) return observe_void([&] { r.get(); });   // await_result<void> has no operator*
-        else return observe_int([&] { return *r; });
+        else return observe_int([&] { int &x = *r; g_env->note_ref(&x); return x; });
     };
     if (style == "star") return by_star();
     if (style == "bool" || style == "not") {
@@ -216,23 +224,31 @@ static std::string observe_result(await_result<T> &r, const std::string &style =
     return by_get();
 }
 
-template <typename T>
+// T = what the adapter awaits (future<PT>); PT = what the source factory's future carries: T, or T& (reference flavour)
+template <typename T, typename PT = T>
 struct Src {
+    static constexpr bool is_ref = std::is_reference_v<PT>;
     Env &env;
-    std::optional<promise<T>> prom;
+    std::optional<promise<PT>> prom;
     bool published = false;
     std::vector<std::string> pre, imm, fthrow;   // empty = not used
 
     explicit Src(Env &e) : env(e) {}
 
-    void publish(promise<T> &&p) {
+    void publish(promise<PT> &&p) {
         prom.emplace(std::move(p));
         S().name_obj(&prom->_owner, "owner");
         published = true;
     }
-    static void invoke(promise<T> &p, const std::vector<std::string> &a, std::size_t at, bool &r) {
+    static void invoke(promise<PT> &p, const std::vector<std::string> &a, std::size_t at, bool &r) {
         if (a[at] == "value") {
             if constexpr (std::is_void_v<T>) { auto sp = p(); r = sp; }
+            else if constexpr (is_ref) {
+                int &cell = Env::ref_cells[(at * 31 + a.size() * 7 + (std::size_t)atoi(a[at + 1].c_str())) % 64];
+                cell = atoi(a[at + 1].c_str());
+                auto sp = p(cell);            // promise<int&>: future::set_ref
+                r = sp;
+            }
             else { auto sp = p(atoi(a[at + 1].c_str())); r = sp; }
         } else if (a[at] == "exc") {
             auto sp = p(std::make_exception_ptr(test_exc(atoi(a[at + 1].c_str()))));
@@ -244,28 +260,33 @@ struct Src {
         // a coroutine collected by the suspend point (callback_await) is resumed here, when `sp` dies
     }
     // the awaited operation: called by the adapter under test on the registering thread
-    future<T> make() {
+    future<PT> make() {
         trk::Off off;
         if (!fthrow.empty()) {
             // starting the operation itself fails: the function that is supposed to return the future throws
-            publish(promise<T>());
+            publish(promise<PT>());
             throw test_exc(atoi(fthrow[1].c_str()));
         }
         if (!imm.empty()) {
-            publish(promise<T>());
+            publish(promise<PT>());
             if (imm[1] == "value") {
-                if constexpr (std::is_void_v<T>) return future<T>::set_value();
-                else return future<T>::set_value(atoi(imm[2].c_str()));
+                if constexpr (std::is_void_v<T>) return future<PT>::set_value();
+                else if constexpr (is_ref) {
+                    int &cell = Env::ref_cells[63];
+                    cell = atoi(imm[2].c_str());
+                    return future<PT>::set_value(cell);   // already resolved reference future (static factory)
+                }
+                else return future<PT>::set_value(atoi(imm[2].c_str()));
             }
-            if (imm[1] == "exc") return future<T>::set_exception(std::make_exception_ptr(test_exc(atoi(imm[2].c_str()))));
-            return future<T>::set_not_value();
+            if (imm[1] == "exc") return future<PT>::set_exception(std::make_exception_ptr(test_exc(atoi(imm[2].c_str()))));
+            return future<PT>::set_not_value();
         }
-        return future<T>([&](promise<T> p) {
-            future<T> *f = p._owner.raw();
+        return future<PT>([&](promise<PT> p) {
+            future<PT> *f = p._owner.raw();
             if (!pre.empty()) {
                 bool r;
                 invoke(p, pre, 1, r);          // resolved before registration (nothing is tracked yet)
-                publish(promise<T>());
+                publish(promise<PT>());
             } else {
                 publish(std::move(p));
             }
@@ -285,11 +306,12 @@ struct Src {
 
 // ---- converter shapes (future_conv) --------------------------------------------------------------------------------
 struct CvCtx {
-    int m_ii(int &x) { return g_env->convert(x); }
-    void m_iv(int &x) { g_env->convert(x); }
+    int m_ii(int &x) { g_env->note_ref(&x); return g_env->convert(x); }
+    void m_iv(int &x) { g_env->note_ref(&x); g_env->convert(x); }
     int m_vi() { return g_env->convert(std::nullopt); }
     void m_vv() { g_env->convert(std::nullopt); }
     suspend_point<void> p_ii(int &x, promise<int> &p) {
+        g_env->note_ref(&x);
         int r = g_env->convert(x);
         if (g_env->behav == "leave") return {};
         return p(r);
@@ -310,7 +332,7 @@ struct CvCtx {
         return p();
     }
 };
-static int f_ii(int &x) { return g_env->convert(x); }
+static int f_ii(int &x) { g_env->note_ref(&x); return g_env->convert(x); }
 static void f_iv(int &x) { g_env->convert(x); }
 static int c_ii(int &x, CvCtx *) { return g_env->convert(x); }
 
@@ -327,15 +349,15 @@ struct CfObj {
 
 // The argument that constructs the awaited operation of callback_await: a *stateful temporary* functor that records its
 // own liveness in a registry of live addresses (no dead memory is ever touched: the verdict needs no sanitizer).
-template <typename T>
+template <typename T, typename PT = T>
 struct ProbeFactory {
     static std::set<const void *> &live() { static std::set<const void *> s; return s; }
-    static inline Src<T> *src = nullptr;
+    static inline Src<T, PT> *src = nullptr;
     ProbeFactory() { trk::Off o; live().insert(this); }
     ProbeFactory(const ProbeFactory &) { trk::Off o; live().insert(this); }
     ProbeFactory(ProbeFactory &&) { trk::Off o; live().insert(this); }
     ~ProbeFactory() { trk::Off o; live().erase(this); }
-    future<T> operator()() const {
+    future<PT> operator()() const {
         {
             trk::Off o;
             if (!live().count(this)) S().log_line("dead-arg");
@@ -379,10 +401,10 @@ struct Case {
     std::vector<Round> rounds;
 };
 
-template <typename T>
+template <typename T, typename PT = T>
 struct Runner {
     Env env;
-    Src<T> src{env};
+    Src<T, PT> src{env};
     cstor stor;
     std::function<void()> reg;        // the registration (runs on thread 0)
     std::function<void()> report;     // extra final lines
@@ -471,8 +493,8 @@ struct Runner {
 };
 
 // ---- adapters ------------------------------------------------------------------------------------------------------
-template <typename T>
-static void setup_simple(Runner<T> &R, const std::string &adapter, const std::string &alloc) {
+template <typename T, typename PT>
+static void setup_simple(Runner<T, PT> &R, const std::string &adapter, const std::string &alloc) {
     Env *env = &R.env;
     auto factory = [&R] { return R.src.make(); };
     if (adapter == "cbawait") {
@@ -486,10 +508,10 @@ static void setup_simple(Runner<T> &R, const std::string &adapter, const std::st
             };
             // rvalues: callback_await stores an lvalue callback by reference (the caller would have to keep it alive);
             // the factory is a stateful temporary of the call's full expression
-            ProbeFactory<T>::src = &R.src;
+            ProbeFactory<T, PT>::src = &R.src;
             R.register_tracked([&] {
-                if (alloc == "stor") callback_await_alloc<cstor, future<T>>(R.stor, std::move(cb), ProbeFactory<T>());
-                else callback_await<future<T>>(std::move(cb), ProbeFactory<T>());
+                if (alloc == "stor") callback_await_alloc<cstor, future<T>>(R.stor, std::move(cb), ProbeFactory<T, PT>());
+                else callback_await<future<T>>(std::move(cb), ProbeFactory<T, PT>());
             });
         };
     } else if (adapter == "cbref") {
@@ -553,6 +575,7 @@ static void setup_simple(Runner<T> &R, const std::string &adapter, const std::st
         R.round_end = [obj] { obj->fut.reset(); };
         R.cleanup = [obj]() mutable { obj.reset(); };
     } else if (adapter == "mkprom") {
+      if constexpr (!std::is_reference_v<PT>) {   // make_promise has no source factory: no reference flavour
         R.reg = [&R, env, alloc] {
             auto cb = [env](future<T> &f) {
                 trk::Off o;
@@ -568,6 +591,7 @@ static void setup_simple(Runner<T> &R, const std::string &adapter, const std::st
             S().name_obj(&f->_awaiter, "slot");
             R.src.publish(std::move(*p));
         };
+      }
     } else if (adapter == "discard") {
         R.reg = [&R, factory] { R.register_tracked([&] { discard(factory); }); };
     } else if (adapter == "callfn") {
@@ -578,8 +602,8 @@ static void setup_simple(Runner<T> &R, const std::string &adapter, const std::st
     }
 }
 
-template <typename From, typename To, typename Conv>
-static void setup_conv(Runner<From> &R, std::shared_ptr<Conv> conv, bool hlp) {
+template <typename From, typename To, typename PT, typename Conv>
+static void setup_conv(Runner<From, PT> &R, std::shared_ptr<Conv> conv, bool hlp) {
     auto outer = std::make_shared<std::optional<future<To>>>();
     auto factory = [&R] { return R.src.make(); };
     R.reg = [&R, conv, outer, factory, hlp] {
@@ -591,7 +615,7 @@ static void setup_conv(Runner<From> &R, std::shared_ptr<Conv> conv, bool hlp) {
     R.report = [&R, outer] {
         future<To> &f = **outer;
         if (!f.ready()) { R.env.log("outer pending"); return; }
-        R.env.log("outer " + observe_future(f) + " hv=" + (f._state != future_common::State::not_value ? "1" : "0"));
+        R.env.log("outer " + observe_future(f, false) + " hv=" + (f._state != future_common::State::not_value ? "1" : "0"));
     };
     R.round_end = [outer] { outer->reset(); };
     R.cleanup = [conv, outer]() mutable { outer->reset(); conv.reset(); };
@@ -599,29 +623,30 @@ static void setup_conv(Runner<From> &R, std::shared_ptr<Conv> conv, bool hlp) {
 
 static CvCtx g_cvctx;
 
-template <typename From>
-static bool setup_conv_shape(Runner<From> &R, const std::string &shape, const std::string &to, bool hlp) {
+template <typename From, typename PT>
+static bool setup_conv_shape(Runner<From, PT> &R, const std::string &shape, const std::string &to, bool hlp) {
     CvCtx *cx = &g_cvctx;
     if constexpr (std::is_void_v<From>) {
-        if (shape == "m" && to == "int") { setup_conv<void, int>(R, std::make_shared<future_conv<&CvCtx::m_vi>>(cx), hlp); return true; }
-        if (shape == "m" && to == "void") { setup_conv<void, void>(R, std::make_shared<future_conv<&CvCtx::m_vv>>(cx), hlp); return true; }
-        if (shape == "p" && to == "int") { setup_conv<void, int>(R, std::make_shared<future_conv<&CvCtx::p_vi>>(cx), hlp); return true; }
-        if (shape == "p" && to == "void") { setup_conv<void, void>(R, std::make_shared<future_conv<&CvCtx::p_vv>>(cx), hlp); return true; }
+        if (shape == "m" && to == "int") { setup_conv<void, int, PT>(R, std::make_shared<future_conv<&CvCtx::m_vi>>(cx), hlp); return true; }
+        if (shape == "m" && to == "void") { setup_conv<void, void, PT>(R, std::make_shared<future_conv<&CvCtx::m_vv>>(cx), hlp); return true; }
+        if (shape == "p" && to == "int") { setup_conv<void, int, PT>(R, std::make_shared<future_conv<&CvCtx::p_vi>>(cx), hlp); return true; }
+        if (shape == "p" && to == "void") { setup_conv<void, void, PT>(R, std::make_shared<future_conv<&CvCtx::p_vv>>(cx), hlp); return true; }
     } else {
-        if (shape == "m" && to == "int") { setup_conv<int, int>(R, std::make_shared<future_conv<&CvCtx::m_ii>>(cx), hlp); return true; }
-        if (shape == "m" && to == "void") { setup_conv<int, void>(R, std::make_shared<future_conv<&CvCtx::m_iv>>(cx), hlp); return true; }
-        if (shape == "p" && to == "int") { setup_conv<int, int>(R, std::make_shared<future_conv<&CvCtx::p_ii>>(cx), hlp); return true; }
-        if (shape == "p" && to == "void") { setup_conv<int, void>(R, std::make_shared<future_conv<&CvCtx::p_iv>>(cx), hlp); return true; }
-        if (shape == "f" && to == "int") { setup_conv<int, int>(R, std::make_shared<future_conv<&f_ii>>(), hlp); return true; }
-        if (shape == "f" && to == "void") { setup_conv<int, void>(R, std::make_shared<future_conv<&f_iv>>(), hlp); return true; }
-        if (shape == "c" && to == "int") { setup_conv<int, int>(R, std::make_shared<future_conv<&c_ii>>(cx), hlp); return true; }
+        if (shape == "m" && to == "int") { setup_conv<int, int, PT>(R, std::make_shared<future_conv<&CvCtx::m_ii>>(cx), hlp); return true; }
+        if (shape == "m" && to == "void") { setup_conv<int, void, PT>(R, std::make_shared<future_conv<&CvCtx::m_iv>>(cx), hlp); return true; }
+        if (shape == "p" && to == "int") { setup_conv<int, int, PT>(R, std::make_shared<future_conv<&CvCtx::p_ii>>(cx), hlp); return true; }
+        if (shape == "p" && to == "void") { setup_conv<int, void, PT>(R, std::make_shared<future_conv<&CvCtx::p_iv>>(cx), hlp); return true; }
+        if (shape == "f" && to == "int") { setup_conv<int, int, PT>(R, std::make_shared<future_conv<&f_ii>>(), hlp); return true; }
+        if (shape == "f" && to == "void") { setup_conv<int, void, PT>(R, std::make_shared<future_conv<&f_iv>>(), hlp); return true; }
+        if (shape == "c" && to == "int") { setup_conv<int, int, PT>(R, std::make_shared<future_conv<&c_ii>>(cx), hlp); return true; }
     }
     return false;
 }
 
-template <typename T>
+template <typename T, typename PT = T>
 static void run_typed(const Case &c) {
-    Runner<T> R;
+    Runner<T, PT> R;
+    R.env.ref_src = std::is_reference_v<PT>;
     const std::string adapter = c.hdr[3];
     const std::string alloc = c.hdr.size() > 5 ? c.hdr[5] : "heap";
     if (adapter == "conv") {
@@ -629,9 +654,9 @@ static void run_typed(const Case &c) {
         std::string to = c.hdr.size() > 7 ? c.hdr[7] : "int";
         R.env.behav = c.hdr.size() > 8 ? c.hdr[8] : "ok";
         bool hlp = c.hdr.size() > 9 && c.hdr[9] == "hlp";
-        if (!setup_conv_shape<T>(R, shape, to, hlp)) { S().log_line("bad-conv-shape"); return; }
+        if (!setup_conv_shape<T, PT>(R, shape, to, hlp)) { S().log_line("bad-conv-shape"); return; }
     } else {
-        setup_simple<T>(R, adapter, alloc);
+        setup_simple<T, PT>(R, adapter, alloc);
         if (!R.reg) { S().log_line("bad-adapter"); return; }
     }
     R.run(c);
@@ -640,6 +665,7 @@ static void run_typed(const Case &c) {
 static void run_case(const Case &c) {
     std::string T = c.hdr.size() > 4 ? c.hdr[4] : "int";
     if (T == "void") run_typed<void>(c);
+    else if (T == "intref") run_typed<int, int &>(c);
     else run_typed<int>(c);
     S().log_line("end");
 }
